@@ -43,12 +43,29 @@ var encodings = []string{"", "AUTO", "UTF8", "UTF8M", "UTF16", "UTF16BE", "UTF16
 var delims = []string{"", ",", ";", "|", "\t", " ", ":", "\"", "\n", "あ", `\t`, "a"}
 var badDelims = []string{"ab", ",,", `\\\\`}
 var weirdPositions = []string{"SPACES", "spaces", "[]", "S[]", "[0]", "[-1]", "[3,2]", "[2,2]", "[1,1000000000]", "[1,2,3,4,5,6,7,8,9,10,11,12]", "S[1,3]", "s[2]", "[1.5]", "[9223372036854775808]", "[\"1\"]", "{}", "garbage", "S[", "[1,2", "[5]", "[2,4,6]", "[1,5,9]"}
+
 // Known genuine defect (reported): FIXED with single-line mode and an empty
 // position list ('S[]') never reaches the end of the data: the reader returns
 // empty records for ever and memory grows without bound. The generator keeps
 // away from that exact shape so that the search continues; set to false to
 // reproduce it (signature fixed_single_line_no_positions_endless_loop).
 const avoidKnownSingleLineNoPositions = true
+
+// Known genuine defect (reported): readRecordSet (lib/query/load_view.go:1245)
+// re-allocates the record set after 300 records with capacity
+// fileSize/pos*300*1.2, where pos is the number of data bytes in those records:
+// a 300 KB file whose first 300 records hold one byte of data reserves 2.5 GB,
+// 1.5 MB reserve 13 GB. While true the generated inputs stay below 100 KB (at
+// most 0.86 GB, under the memory ceiling of the oracle); set to false to let
+// the generator build such files (signature record_set_preallocation_unbounded).
+const avoidKnownPreallocation = true
+
+func maxDataLen() int {
+	if avoidKnownPreallocation {
+		return 100000
+	}
+	return 2000000
+}
 
 // singleLineNoPositions: the option selects single-line mode with no positions.
 func singleLineNoPositions(pos string) bool {
@@ -511,8 +528,12 @@ func genLoad(t *rapid.T) loadCase {
 			c.Pos = "S[1]"
 		}
 	}
-	if len(c.Data) > 200000 {
-		c.Data = c.Data[:200000]
+	if !avoidKnownPreallocation && fw.Pct(t, "sparseHead", 2) {
+		c.Data = []byte("a,b\nx,\n" + strings.Repeat(",\n", 150000))
+		c.Origin += "+sparse_head"
+	}
+	if len(c.Data) > maxDataLen() {
+		c.Data = c.Data[:maxDataLen()]
 	}
 	return c
 }
@@ -717,6 +738,8 @@ func checkLoad(c loadCase) (fw.Outcome, *fw.Violation) {
 	if v != nil {
 		if (v.Sig == "hang" || v.Sig == "runaway_memory") && c.Format == "FIXED" && singleLineNoPositions(c.Pos) {
 			v.Sig = "fixed_single_line_no_positions_endless_loop"
+		} else if v.Sig == "runaway_memory" && c.Format != "JSON" && bytes.Count(c.Data, []byte("\n"))+bytes.Count(c.Data, []byte("\r")) >= 300 {
+			v.Sig = "record_set_preallocation_unbounded"
 		}
 		return o, v
 	}
@@ -739,7 +762,7 @@ func checkLoad(c loadCase) (fw.Outcome, *fw.Violation) {
 
 func TestC19LoadData(t *testing.T) {
 	fw.Run(t, fw.Spec[loadCase]{
-		ID: "C19", Name: "load_data", Quick: 60000, Thorough: 1200000,
+		ID: "C19", Name: "load_data", Quick: 100000, Thorough: 2000000,
 		Gen: genLoad, Check: checkLoad,
 		Rule: "bytes = {cell grid rendered as CSV/TSV/LTSV/FIXED/JSON/JSONL (quoted or sloppy, LF/CRLF/CR, ragged rows, odd names, 0..650 rows) | a /repo/testdata/csv seed | random bytes | random text over the parsers' special characters}, then 0-3 mutations (truncate, duplicated/inserted quote, stray CR/LF/NUL/quote/delimiter, invalid UTF-8, BOMs, 5 000 / 70 000 byte runs, dropped/added field, delete, repeated splice, line-break rewrite, UTF-16 transcoding, garbage tail, 299..700 inserted rows) x option vector (delimiter incl. quote/newline/multi-byte/invalid, delimiter positions incl. SPACES, S[...], unsorted/negative/huge/malformed, encoding AUTO/UTF8[M]/UTF16[BE|LE][M]/SJIS/invalid, no-header, allow-uneven-fields, without-null, json-query from a list of valid and malformed queries) x way of loading (STDIN, file + import flags, FMT(.., DATA::(..)), FMT(.., `file`), FMT(.., INLINE::(file))). Oracle: Execute returns (20 s watchdog, re-tried once with 80 s), no panic escapes, no *query.FatalError, error code documented, every result view and the cached/stdin table itself is rectangular. non-trivial = >=2 records loaded, or a data-level rejection of bytes with >=2 line/record separators; distinct by (format, way, option-vector class, outcome, width)",
 		Assumptions: []string{
